@@ -1,14 +1,41 @@
 import ArimModel.ScatFn
+import ArimProofs.Lemmas.ScatFn
+import Mathlib.Analysis.SpecialFunctions.Trigonometric.Basic
+import Mathlib.Algebra.Ring.Periodic
 import Mathlib.Tactic.FieldSimp
 import Mathlib.Tactic.Ring
-/-! # C09 — scattering functions satisfy reciprocity and their geometric symmetries -/
+import Mathlib.Tactic.LinearCombination
+import Mathlib.Tactic.NormNum
+/-! # C09 — scattering functions satisfy reciprocity and their geometric symmetries
+
+* point source: `v_T² S_LT = −v_L² S_TL`;
+* side-drilled hole (`sdh_2d_scat`), for ALL modal coefficient sequences and all `maxn`:
+  `S_LL`, `S_TT` symmetric under exchange of the two angles, `v_T² S_LT(a,b) = −v_L² S_TL(b,a)`,
+  `2π`-periodicity in each angle, dependence on `out − inc` only;
+* crack centre (`crack_2d_scat`), for every pair of symmetric bilinear forms `qx`, `qz`
+  (`symm_inv_form`: the form of the inverse of a symmetric matrix is symmetric): closed forms of
+  the four functions, `S_LL`, `S_TT` symmetric, the exact relation
+  `kLL · a_T · S_LT(a,b) = −kTT · a_L · S_TL(b,a)`, which for the physical constants is
+  `v_T² S_LT(a,b) = −v_L² S_TL(b,a)`, and `2π`-periodicity.
+
+The model computes each of `LL`, `LT`, `TL`, `TT` by its own function with no `to_compute`
+argument, so "a subset of keys gives the same values as the full set" holds by construction and
+is not stated as a theorem. -/
 namespace Arim.C09
-open Arim.ScatFn
+open Arim.ScatFn Arim.ScatFnLemmas
 
 /-- **Point source**: `S_LL`, `S_TT` are constants (hence symmetric and periodic) and
 `v_T² S_LT = −v_L² S_TL` -/
 theorem point_reciprocity {C : Type} [Field C] (vL vT : C) (hL : vL ≠ 0) (hT : vT ≠ 0) :
     vT * vT * pointLT vL vT = -(vL * vL * pointTL vL vT) := by
+  unfold pointLT pointTL
+  field_simp
+
+/-- **Point source**: the four functions do not depend on the angles at all (they take none), so
+exchange symmetry and periodicity are trivial; `S_LL = S_TT = 1`, `S_LT · S_TL = −1` -/
+theorem point_symm {C : Type} [Field C] (vL vT : C) (hL : vL ≠ 0) (hT : vT ≠ 0) :
+    pointLL (1 : C) = 1 ∧ pointTT (1 : C) = 1 ∧ pointLT vL vT * pointTL vL vT = -1 := by
+  refine ⟨rfl, rfl, ?_⟩
   unfold pointLT pointTL
   field_simp
 
@@ -19,5 +46,353 @@ theorem sdh_difference_only {C : Type} [Field C] (t : STrig C) (k : SdhCoef C) (
     sdhLT t k (inc + d) (out + d) = sdhLT t k inc out ∧ sdhTL t k (inc + d) (out + d) = sdhTL t k inc out := by
   have h : out + d - (inc + d) = out - inc := by ring
   simp only [sdhLL, sdhTT, sdhLT, sdhTL, h, and_self]
+
+/-! ## The complex instance of the trigonometric record -/
+
+/-- complex trigonometry; `s` stands for `np.sqrt(1j)` (its value is irrelevant below) -/
+noncomputable def tC (s : ℂ) : STrig ℂ :=
+  { sin := Complex.sin, cos := Complex.cos, ofNat := fun n => (n : ℂ), pi := (Real.pi : ℂ),
+    sqrtI := s, zero := 0 }
+
+@[simp] theorem tC_sin (s : ℂ) : (tC s).sin = Complex.sin := rfl
+@[simp] theorem tC_cos (s : ℂ) : (tC s).cos = Complex.cos := rfl
+@[simp] theorem tC_ofNat (s : ℂ) (n : ℕ) : (tC s).ofNat n = (n : ℂ) := rfl
+@[simp] theorem tC_pi (s : ℂ) : (tC s).pi = (Real.pi : ℂ) := rfl
+@[simp] theorem tC_sqrtI (s : ℂ) : (tC s).sqrtI = s := rfl
+@[simp] theorem tC_zero (s : ℂ) : (tC s).zero = 0 := rfl
+
+/-! ## Modal sums -/
+
+/-- the model's `foldl` is `Σ_{n=0}^{maxn} trig(n φ) · coef n` -/
+theorem modalSum_eq_sum {C : Type} [Field C] (t : STrig C) (h0 : t.zero = 0) (trig : C → C)
+    (phi : C) (coef : ℕ → C) (maxn : ℕ) :
+    modalSum t trig phi coef maxn
+      = ∑ n ∈ Finset.range (maxn + 1), trig (t.ofNat n * phi) * coef n :=
+  Arim.ScatFnLemmas.modalSum_eq_sum t h0 trig phi coef maxn
+
+/-- over `ℂ`: `modalSum = Σ_{n=0}^{maxn} trig(n φ) · coef n` -/
+theorem modalSum_tC (s : ℂ) (trig : ℂ → ℂ) (phi : ℂ) (coef : ℕ → ℂ) (maxn : ℕ) :
+    modalSum (tC s) trig phi coef maxn
+      = ∑ n ∈ Finset.range (maxn + 1), trig ((n : ℂ) * phi) * coef n :=
+  modalSum_eq_sum (tC s) rfl trig phi coef maxn
+
+/-- cosine modal sum: `θ ↦ −θ` (with `φ = θ + π`) leaves it unchanged -/
+theorem modalSum_cos_flip (s θ : ℂ) (coef : ℕ → ℂ) (maxn : ℕ) :
+    modalSum (tC s) Complex.cos (-θ + (Real.pi : ℂ)) coef maxn
+      = modalSum (tC s) Complex.cos (θ + (Real.pi : ℂ)) coef maxn := by
+  rw [modalSum_tC, modalSum_tC]
+  exact Finset.sum_congr rfl fun n _ => by rw [cos_nat_flip]
+
+/-- sine modal sum: `θ ↦ −θ` (with `φ = θ + π`) changes its sign -/
+theorem modalSum_sin_flip (s θ : ℂ) (coef : ℕ → ℂ) (maxn : ℕ) :
+    modalSum (tC s) Complex.sin (-θ + (Real.pi : ℂ)) coef maxn
+      = -modalSum (tC s) Complex.sin (θ + (Real.pi : ℂ)) coef maxn := by
+  rw [modalSum_tC, modalSum_tC, ← Finset.sum_neg_distrib]
+  exact Finset.sum_congr rfl fun n _ => by rw [sin_nat_flip, neg_mul]
+
+/-- a constant factor of the coefficients comes out of the modal sum -/
+theorem modalSum_mul_coef (s φ c : ℂ) (trig : ℂ → ℂ) (coef : ℕ → ℂ) (maxn : ℕ) :
+    modalSum (tC s) trig φ (fun n => c * coef n) maxn = c * modalSum (tC s) trig φ coef maxn := by
+  rw [modalSum_tC, modalSum_tC, Finset.mul_sum]
+  exact Finset.sum_congr rfl fun n _ => by ring
+
+/-- cosine modal sum is `2π`-periodic in `φ` -/
+theorem modalSum_cos_periodic (s φ : ℂ) (m : ℤ) (coef : ℕ → ℂ) (maxn : ℕ) :
+    modalSum (tC s) Complex.cos (φ + 2 * (Real.pi : ℂ) * (m : ℂ)) coef maxn
+      = modalSum (tC s) Complex.cos φ coef maxn := by
+  rw [modalSum_tC, modalSum_tC]
+  exact Finset.sum_congr rfl fun n _ => by rw [cos_nat_mul_add_int]
+
+/-- sine modal sum is `2π`-periodic in `φ` -/
+theorem modalSum_sin_periodic (s φ : ℂ) (m : ℤ) (coef : ℕ → ℂ) (maxn : ℕ) :
+    modalSum (tC s) Complex.sin (φ + 2 * (Real.pi : ℂ) * (m : ℂ)) coef maxn
+      = modalSum (tC s) Complex.sin φ coef maxn := by
+  rw [modalSum_tC, modalSum_tC]
+  exact Finset.sum_congr rfl fun n _ => by rw [sin_nat_mul_add_int]
+
+/-! ## Side-drilled hole -/
+
+/-- **SDH**: `S_LL(a, b) = S_LL(b, a)` for every coefficient sequence `aLL` and every `maxn` -/
+theorem sdh_LL_symm (s : ℂ) (k : SdhCoef ℂ) (a b : ℂ) :
+    sdhLL (tC s) k a b = sdhLL (tC s) k b a := by
+  have h : a - b + (Real.pi : ℂ) = -(b - a) + (Real.pi : ℂ) := by ring
+  simp only [sdhLL, tC_cos, tC_pi]
+  rw [h, modalSum_cos_flip]
+
+/-- **SDH**: `S_TT(a, b) = S_TT(b, a)` for every coefficient sequence `bTT` and every `maxn` -/
+theorem sdh_TT_symm (s : ℂ) (k : SdhCoef ℂ) (a b : ℂ) :
+    sdhTT (tC s) k a b = sdhTT (tC s) k b a := by
+  have h : a - b + (Real.pi : ℂ) = -(b - a) + (Real.pi : ℂ) := by ring
+  simp only [sdhTT, tC_cos, tC_pi]
+  rw [h, modalSum_cos_flip]
+
+/-- **SDH reciprocity**: `v_T² S_LT(a, b) = −v_L² S_TL(b, a)` for every shared coefficient
+sequence `x` and every `maxn`, under `β v_T = α v_L` (`α = 2πf r / v_L`, `β = 2πf r / v_T`) -/
+theorem sdh_LT_TL_reciprocity (s : ℂ) (k : SdhCoef ℂ) (vL vT a b : ℂ)
+    (hv : k.beta * vT = k.alpha * vL) (hα : k.alpha ≠ 0) (hβ : k.beta ≠ 0) :
+    vT ^ 2 * sdhLT (tC s) k a b = -(vL ^ 2 * sdhTL (tC s) k b a) := by
+  have h : a - b + (Real.pi : ℂ) = -(b - a) + (Real.pi : ℂ) := by ring
+  have hπ : (Real.pi : ℂ) ≠ 0 := by exact_mod_cast Real.pi_ne_zero
+  simp only [sdhLT, sdhTL, tC_sin, tC_pi, tC_sqrtI]
+  rw [h, modalSum_sin_flip]
+  have e1 : (fun n => (tC s).ofNat 2 * (tC s).ofNat n / ((Real.pi : ℂ) * k.alpha) * k.x n)
+      = fun n => (1 / ((Real.pi : ℂ) * k.alpha)) * ((tC s).ofNat 2 * (tC s).ofNat n * k.x n) := by
+    funext n; ring
+  have e2 : (fun n => (tC s).ofNat 2 * (tC s).ofNat n / ((Real.pi : ℂ) * k.beta) * k.x n)
+      = fun n => (1 / ((Real.pi : ℂ) * k.beta)) * ((tC s).ofNat 2 * (tC s).ofNat n * k.x n) := by
+    funext n; ring
+  rw [e1, e2, modalSum_mul_coef, modalSum_mul_coef]
+  generalize modalSum (tC s) Complex.sin _ _ _ = M
+  field_simp
+  linear_combination (M * s * (k.beta * vT + k.alpha * vL)) * hv
+
+/-- **SDH**: each of the four functions is `2π`-periodic in each angle separately -/
+theorem sdh_periodic (s : ℂ) (k : SdhCoef ℂ) (a b : ℂ) (k₁ k₂ : ℤ) :
+    sdhLL (tC s) k (a + 2 * (Real.pi : ℂ) * k₁) (b + 2 * (Real.pi : ℂ) * k₂) = sdhLL (tC s) k a b ∧
+    sdhTT (tC s) k (a + 2 * (Real.pi : ℂ) * k₁) (b + 2 * (Real.pi : ℂ) * k₂) = sdhTT (tC s) k a b ∧
+    sdhLT (tC s) k (a + 2 * (Real.pi : ℂ) * k₁) (b + 2 * (Real.pi : ℂ) * k₂) = sdhLT (tC s) k a b ∧
+    sdhTL (tC s) k (a + 2 * (Real.pi : ℂ) * k₁) (b + 2 * (Real.pi : ℂ) * k₂) = sdhTL (tC s) k a b := by
+  have h : b + 2 * (Real.pi : ℂ) * k₂ - (a + 2 * (Real.pi : ℂ) * k₁) + (Real.pi : ℂ)
+      = (b - a + (Real.pi : ℂ)) + 2 * (Real.pi : ℂ) * ((k₂ - k₁ : ℤ) : ℂ) := by
+    push_cast; ring
+  simp only [sdhLL, sdhTT, sdhLT, sdhTL, tC_sin, tC_cos, tC_pi]
+  rw [h, modalSum_cos_periodic, modalSum_cos_periodic, modalSum_sin_periodic, modalSum_sin_periodic]
+  exact ⟨rfl, rfl, rfl, rfl⟩
+
+/-! ## Symmetric forms -/
+
+/-- the bilinear form `u, v ↦ uᵀ A⁻¹ v` of a symmetric matrix is symmetric; this is why the
+forms `qx`, `qz` of the crack kernel (`A_x`, `A_z` are symmetric Toeplitz matrices) are symmetric.
+No invertibility hypothesis is needed (Mathlib's `A⁻¹` is `0` for a singular matrix). -/
+theorem symm_inv_form {n K : Type} [Fintype n] [DecidableEq n] [Field K]
+    (A : Matrix n n K) (hA : A.transpose = A) (u v : n → K) :
+    u ⬝ᵥ (A⁻¹.mulVec v) = v ⬝ᵥ (A⁻¹.mulVec u) :=
+  Arim.ScatFnLemmas.symm_inv_form A hA u v
+
+/-- the same for the solution of a linear system: if `A x = v` and `A y = u` with `A` symmetric
+and invertible then `u · x = v · y` (`np.dot(np.linalg.solve(A, v), u)` is symmetric in `u, v`) -/
+theorem symm_solve_form {n K : Type} [Fintype n] [DecidableEq n] [Field K]
+    (A : Matrix n n K) (hA : A.transpose = A) (hdet : IsUnit A.det) (u v x y : n → K)
+    (hx : A.mulVec x = v) (hy : A.mulVec y = u) : u ⬝ᵥ x = v ⬝ᵥ y := by
+  have ex : x = A⁻¹.mulVec v := by
+    rw [← hx, Matrix.mulVec_mulVec, Matrix.nonsing_inv_mul A hdet, Matrix.one_mulVec]
+  have ey : y = A⁻¹.mulVec u := by
+    rw [← hy, Matrix.mulVec_mulVec, Matrix.nonsing_inv_mul A hdet, Matrix.one_mulVec]
+  rw [ex, ey]
+  exact symm_inv_form A hA u v
+
+/-! ## Crack centre -/
+
+variable {V : Type}
+
+/-- The hypotheses on the crack data: symmetric forms, homogeneous in the first argument,
+the constants `1`, `2`, and the elastic relation `λ = μ (1/ξ² − 2)`
+(`λ = ρ (v_L² − 2 v_T²)`, `μ = ρ v_T²`, `ξ = v_T / v_L`). -/
+structure CrackOK (d : CrackData ℂ V) : Prop where
+  qx_symm : ∀ u v, d.qx u v = d.qx v u
+  qz_symm : ∀ u v, d.qz u v = d.qz v u
+  qx_smul : ∀ c u v, d.qx (d.smulV c u) v = c * d.qx u v
+  qz_smul : ∀ c u v, d.qz (d.smulV c u) v = c * d.qz u v
+  one_eq : d.one = 1
+  two_eq : d.two = 2
+  lam_eq : d.lam = d.mu * (1 / d.xi ^ 2 - 2)
+
+open Complex in
+/-- closed form of `S_LL` (uses `sin² + cos² = 1` and the elastic relation; the symmetry of the
+forms is not used) -/
+theorem crackLL_eq (s : ℂ) (d : CrackData ℂ V) (h : CrackOK d) (a b : ℂ) :
+    crackLL (tC s) d a b = d.kLL * d.aL * d.mu *
+      (-((1 / d.xi ^ 2 - 2 * sin a ^ 2) * (1 / d.xi ^ 2 - 2 * sin b ^ 2)) * d.qz (d.bL a) (d.bL b)
+        - 4 * sin a * cos a * sin b * cos b * d.qx (d.bL a) (d.bL b)) := by
+  simp only [crackLL, tC_sin, tC_cos, h.qx_smul, h.qz_smul, h.one_eq, h.two_eq, h.lam_eq]
+  linear_combination (d.kLL * d.aL * (-(1 / d.xi ^ 2 - 2 * sin a ^ 2)) * d.qz (d.bL a) (d.bL b)
+    * 2 * d.mu) * sin_sq_add_cos_sq b
+
+open Complex in
+/-- closed form of `S_LT` -/
+theorem crackLT_eq (s : ℂ) (d : CrackData ℂ V) (h : CrackOK d) (a b : ℂ) :
+    crackLT (tC s) d a b = d.kTT * d.mu * d.aL *
+      (2 * (1 / d.xi ^ 2 - 2 * sin a ^ 2) * sin b * cos b * d.qz (d.bL a) (d.bT b)
+        - 2 * sin a * cos a * (cos b ^ 2 - sin b ^ 2) * d.qx (d.bL a) (d.bT b)) := by
+  simp only [crackLT, tC_sin, tC_cos, h.qx_smul, h.qz_smul, h.one_eq, h.two_eq]
+  ring
+
+open Complex in
+/-- closed form of `S_TL` -/
+theorem crackTL_eq (s : ℂ) (d : CrackData ℂ V) (h : CrackOK d) (a b : ℂ) :
+    crackTL (tC s) d a b = -(d.kLL * d.mu * d.aT *
+      (2 * (1 / d.xi ^ 2 - 2 * sin b ^ 2) * sin a * cos a * d.qz (d.bT a) (d.bL b)
+        - 2 * sin b * cos b * (cos a ^ 2 - sin a ^ 2) * d.qx (d.bT a) (d.bL b))) := by
+  simp only [crackTL, tC_sin, tC_cos, h.qx_smul, h.qz_smul, h.two_eq, h.lam_eq]
+  linear_combination (-(d.kLL * d.aT * (2 * sin a * cos a) * d.qz (d.bT a) (d.bL b)
+    * 2 * d.mu)) * sin_sq_add_cos_sq b
+
+open Complex in
+/-- closed form of `S_TT` -/
+theorem crackTT_eq (s : ℂ) (d : CrackData ℂ V) (h : CrackOK d) (a b : ℂ) :
+    crackTT (tC s) d a b = d.kTT * d.mu * d.aT *
+      ((cos a ^ 2 - sin a ^ 2) * (cos b ^ 2 - sin b ^ 2) * d.qx (d.bT a) (d.bT b)
+        + 4 * sin a * cos a * sin b * cos b * d.qz (d.bT a) (d.bT b)) := by
+  simp only [crackTT, tC_sin, tC_cos, h.qx_smul, h.qz_smul, h.two_eq]
+  ring
+
+/-- **Crack**: `S_LL(a, b) = S_LL(b, a)` -/
+theorem crack_LL_symm (s : ℂ) (d : CrackData ℂ V) (h : CrackOK d) (a b : ℂ) :
+    crackLL (tC s) d a b = crackLL (tC s) d b a := by
+  rw [crackLL_eq s d h, crackLL_eq s d h, h.qx_symm (d.bL b), h.qz_symm (d.bL b)]
+  ring
+
+/-- **Crack**: `S_TT(a, b) = S_TT(b, a)` -/
+theorem crack_TT_symm (s : ℂ) (d : CrackData ℂ V) (h : CrackOK d) (a b : ℂ) :
+    crackTT (tC s) d a b = crackTT (tC s) d b a := by
+  rw [crackTT_eq s d h, crackTT_eq s d h, h.qx_symm (d.bT b), h.qz_symm (d.bT b)]
+  ring
+
+/-- **Crack reciprocity, structural form**: `kLL · a_T · S_LT(a, b) = −kTT · a_L · S_TL(b, a)`;
+the constants `K₁ = kLL a_T`, `K₂ = −kTT a_L` involve neither `μ`, `λ` nor `ξ` -/
+theorem crack_LT_TL_reciprocity (s : ℂ) (d : CrackData ℂ V) (h : CrackOK d) (a b : ℂ) :
+    d.kLL * d.aT * crackLT (tC s) d a b = -(d.kTT * d.aL * crackTL (tC s) d b a) := by
+  rw [crackLT_eq s d h, crackTL_eq s d h, h.qx_symm (d.bT b), h.qz_symm (d.bT b)]
+  ring
+
+/-- **Crack reciprocity with wave speeds**: if `kTT · a_L · v_T² = kLL · a_T · v_L²` then
+`v_T² S_LT(a, b) = −v_L² S_TL(b, a)` (no non-vanishing hypothesis) -/
+theorem crack_LT_TL_reciprocity_vel (s : ℂ) (d : CrackData ℂ V) (h : CrackOK d) (vL vT a b : ℂ)
+    (hK : d.kTT * d.aL * vT ^ 2 = d.kLL * d.aT * vL ^ 2) :
+    vT ^ 2 * crackLT (tC s) d a b = -(vL ^ 2 * crackTL (tC s) d b a) := by
+  rw [crackLT_eq s d h, crackTL_eq s d h, h.qx_symm (d.bT b), h.qz_symm (d.bT b)]
+  linear_combination (d.mu *
+    (2 * (1 / d.xi ^ 2 - 2 * Complex.sin a ^ 2) * Complex.sin b * Complex.cos b
+        * d.qz (d.bL a) (d.bT b)
+      - 2 * Complex.sin a * Complex.cos a * (Complex.cos b ^ 2 - Complex.sin b ^ 2)
+        * d.qx (d.bL a) (d.bT b))) * hK
+
+/-- the physical constants of `crack_2d_scat` (`ξ₁ = 2πf/v_L`, `ξ₂ = 2πf/v_T`,
+`a_L = −i ξ₁ π/ξ₂²`, `a_T = −i ξ₂ π/ξ₂²`, `kLL = g ξ₁^{5/2}/√λ_L`, `kTT = g ξ₂^{5/2}/√λ_T` with
+`λ_L = v_L/f`, `λ_T = v_T/f` and the common factor `g = ¼ √(2/π) e^{−iπ/4}`) satisfy the
+hypothesis of `crack_LT_TL_reciprocity_vel` -/
+theorem crack_phys_constants (f vL vT : ℝ) (hf : 0 < f) (hL : 0 < vL) (hT : 0 < vT) (g : ℂ) :
+    (g * (((2 * Real.pi * f / vT) ^ ((5 : ℝ) / 2) / Real.sqrt (vT / f) : ℝ) : ℂ))
+        * (-Complex.I * ((2 * Real.pi * f / vL : ℝ) : ℂ) * (Real.pi : ℂ)
+            / ((2 * Real.pi * f / vT : ℝ) : ℂ) ^ 2) * (vT : ℂ) ^ 2
+      = (g * (((2 * Real.pi * f / vL) ^ ((5 : ℝ) / 2) / Real.sqrt (vL / f) : ℝ) : ℂ))
+        * (-Complex.I * ((2 * Real.pi * f / vT : ℝ) : ℂ) * (Real.pi : ℂ)
+            / ((2 * Real.pi * f / vT : ℝ) : ℂ) ^ 2) * (vL : ℂ) ^ 2 := by
+  have hf' : (f : ℂ) ≠ 0 := by exact_mod_cast hf.ne'
+  have hL' : (vL : ℂ) ≠ 0 := by exact_mod_cast hL.ne'
+  have hT' : (vT : ℂ) ≠ 0 := by exact_mod_cast hT.ne'
+  have hπ : (Real.pi : ℂ) ≠ 0 := by exact_mod_cast Real.pi_ne_zero
+  rw [rpow_five_half_div_sqrt f vL hf hL, rpow_five_half_div_sqrt f vT hf hT]
+  push_cast
+  field_simp
+
+/-- **Crack reciprocity, physical constants**: `v_T² S_LT(a, b) = −v_L² S_TL(b, a)` -/
+theorem crack_LT_TL_reciprocity_phys (s : ℂ) (d : CrackData ℂ V) (h : CrackOK d)
+    (f vL vT : ℝ) (hf : 0 < f) (hL : 0 < vL) (hT : 0 < vT) (g : ℂ)
+    (haL : d.aL = -Complex.I * ((2 * Real.pi * f / vL : ℝ) : ℂ) * (Real.pi : ℂ)
+      / ((2 * Real.pi * f / vT : ℝ) : ℂ) ^ 2)
+    (haT : d.aT = -Complex.I * ((2 * Real.pi * f / vT : ℝ) : ℂ) * (Real.pi : ℂ)
+      / ((2 * Real.pi * f / vT : ℝ) : ℂ) ^ 2)
+    (hkLL : d.kLL = g * (((2 * Real.pi * f / vL) ^ ((5 : ℝ) / 2) / Real.sqrt (vL / f) : ℝ) : ℂ))
+    (hkTT : d.kTT = g * (((2 * Real.pi * f / vT) ^ ((5 : ℝ) / 2) / Real.sqrt (vT / f) : ℝ) : ℂ))
+    (a b : ℂ) :
+    (vT : ℂ) ^ 2 * crackLT (tC s) d a b = -((vL : ℂ) ^ 2 * crackTL (tC s) d b a) := by
+  apply crack_LT_TL_reciprocity_vel s d h
+  rw [haL, haT, hkLL, hkTT]
+  exact crack_phys_constants f vL vT hf hL hT g
+
+/-- **Crack**: if the load vectors `bL`, `bT` are `2π`-periodic functions of the angle then the
+four functions are `2π`-periodic in each angle separately (no hypothesis on the forms) -/
+theorem crack_periodic (s : ℂ) (d : CrackData ℂ V)
+    (hbL : Function.Periodic d.bL (2 * (Real.pi : ℂ)))
+    (hbT : Function.Periodic d.bT (2 * (Real.pi : ℂ))) (a b : ℂ) (k₁ k₂ : ℤ) :
+    crackLL (tC s) d (a + 2 * (Real.pi : ℂ) * k₁) (b + 2 * (Real.pi : ℂ) * k₂) = crackLL (tC s) d a b ∧
+    crackLT (tC s) d (a + 2 * (Real.pi : ℂ) * k₁) (b + 2 * (Real.pi : ℂ) * k₂) = crackLT (tC s) d a b ∧
+    crackTL (tC s) d (a + 2 * (Real.pi : ℂ) * k₁) (b + 2 * (Real.pi : ℂ) * k₂) = crackTL (tC s) d a b ∧
+    crackTT (tC s) d (a + 2 * (Real.pi : ℂ) * k₁) (b + 2 * (Real.pi : ℂ) * k₂) = crackTT (tC s) d a b := by
+  have ea : a + 2 * (Real.pi : ℂ) * k₁ = a + (k₁ : ℂ) * (2 * (Real.pi : ℂ)) := by ring
+  have eb : b + 2 * (Real.pi : ℂ) * k₂ = b + (k₂ : ℂ) * (2 * (Real.pi : ℂ)) := by ring
+  have hLa : d.bL (a + (k₁ : ℂ) * (2 * (Real.pi : ℂ))) = d.bL a := hbL.int_mul k₁ a
+  have hLb : d.bL (b + (k₂ : ℂ) * (2 * (Real.pi : ℂ))) = d.bL b := hbL.int_mul k₂ b
+  have hTa : d.bT (a + (k₁ : ℂ) * (2 * (Real.pi : ℂ))) = d.bT a := hbT.int_mul k₁ a
+  have hTb : d.bT (b + (k₂ : ℂ) * (2 * (Real.pi : ℂ))) = d.bT b := hbT.int_mul k₂ b
+  simp only [crackLL, crackLT, crackTL, crackTT, tC_sin, tC_cos, ea, eb, hLa, hLb, hTa, hTb,
+    Complex.sin_add_int_mul_two_pi, Complex.cos_add_int_mul_two_pi, and_self]
+
+/-- **Crack**: in particular when `bL`, `bT` depend on the angle through its sine only (as in
+`crack_2d_scat`: `b(φ) = basis(−k h s₀) · exp(i k x s₀)`, `s₀ = −sin φ`) -/
+theorem crack_periodic_of_sin (s : ℂ) (d : CrackData ℂ V) (gL gT : ℂ → V)
+    (hbL : ∀ φ, d.bL φ = gL (Complex.sin φ)) (hbT : ∀ φ, d.bT φ = gT (Complex.sin φ))
+    (a b : ℂ) (k₁ k₂ : ℤ) :
+    crackLL (tC s) d (a + 2 * (Real.pi : ℂ) * k₁) (b + 2 * (Real.pi : ℂ) * k₂) = crackLL (tC s) d a b ∧
+    crackLT (tC s) d (a + 2 * (Real.pi : ℂ) * k₁) (b + 2 * (Real.pi : ℂ) * k₂) = crackLT (tC s) d a b ∧
+    crackTL (tC s) d (a + 2 * (Real.pi : ℂ) * k₁) (b + 2 * (Real.pi : ℂ) * k₂) = crackTL (tC s) d a b ∧
+    crackTT (tC s) d (a + 2 * (Real.pi : ℂ) * k₁) (b + 2 * (Real.pi : ℂ) * k₂) = crackTT (tC s) d a b :=
+  crack_periodic s d (fun φ => by rw [hbL, hbL, Complex.sin_periodic φ])
+    (fun φ => by rw [hbT, hbT, Complex.sin_periodic φ]) a b k₁ k₂
+
+/-! ## Non-vacuity -/
+
+/-- `maxn = 1`: the modal sum is `cos 0 · c₀ + cos φ · c₁` -/
+example (s φ c0 c1 : ℂ) :
+    modalSum (tC s) Complex.cos φ (fun n => if n = 0 then c0 else c1) 1
+      = c0 + Complex.cos φ * c1 := by
+  simp [modalSum_tC, Finset.sum_range_succ]
+
+/-- `maxn = 1`, `α = π`, `aLL = (1, 1)`: `S_LL(a, b) = s (1 + cos(b − a + π)) = s (1 − cos(b − a))`,
+not identically zero (`S_LL(0, π) = 2 s`) -/
+example (s a b : ℂ) :
+    sdhLL (tC s) ⟨Real.pi, 1, 1, fun _ => 1, fun _ => 1, fun _ => 1⟩ a b
+      = s * (1 - Complex.cos (b - a)) := by
+  have hπ : (Real.pi : ℂ) ≠ 0 := by exact_mod_cast Real.pi_ne_zero
+  simp only [sdhLL, tC_cos, tC_pi, tC_sqrtI, modalSum_tC, Finset.sum_range_succ,
+    Finset.sum_range_zero, Nat.cast_zero, Nat.cast_one, zero_mul, one_mul, mul_one, zero_add,
+    Complex.cos_zero, Complex.cos_add_pi]
+  field_simp
+  ring
+
+/-- the hypotheses of `sdh_LT_TL_reciprocity` are satisfiable (`α = 1`, `β = 2`, `v_L = 2`,
+`v_T = 1`) and `S_LT` is then not identically zero: with `maxn = 1`, `x = (1, 1)` and `s = π`,
+`S_LT(0, −π/2) = 2 · sin(π/2) · 2/π = 4/π` -/
+example : sdhLT (tC Real.pi) ⟨1, 2, 1, fun _ => 1, fun _ => 1, fun _ => 1⟩ 0 (-(Real.pi / 2 : ℂ))
+    = 4 / Real.pi := by
+  have hπ : (Real.pi : ℂ) ≠ 0 := by exact_mod_cast Real.pi_ne_zero
+  have e : -(Real.pi / 2 : ℂ) - 0 + Real.pi = Real.pi / 2 := by ring
+  simp only [sdhLT, tC_sin, tC_pi, tC_sqrtI, tC_ofNat, e, modalSum_tC, Finset.sum_range_succ,
+    Finset.sum_range_zero]
+  simp [Complex.sin_pi_div_two, hπ]
+  field_simp
+  norm_num
+
+/-- a one-dimensional crack datum: `V = ℂ`, `qx u v = u v`, `qz u v = 2 u v`, `ξ = 1/2`, `μ = 1`,
+`λ = 1/ξ² − 2 = 2`, `bL φ = 1 + sin φ`, `bT φ = 2 − sin φ` -/
+noncomputable def crackEx : CrackData ℂ ℂ :=
+  { qx := fun u v => u * v, qz := fun u v => 2 * u * v,
+    bL := fun φ => 1 + Complex.sin φ, bT := fun φ => 2 - Complex.sin φ,
+    smulV := fun c u => c * u, xi := 1 / 2, lam := 2, mu := 1, aL := 3, aT := 5, kLL := 7, kTT := 11,
+    one := 1, two := 2 }
+
+/-- the hypotheses `CrackOK` are satisfiable -/
+theorem crackEx_ok : CrackOK crackEx where
+  qx_symm u v := by simp only [crackEx]; ring
+  qz_symm u v := by simp only [crackEx]; ring
+  qx_smul c u v := by simp only [crackEx]; ring
+  qz_smul c u v := by simp only [crackEx]; ring
+  one_eq := rfl
+  two_eq := rfl
+  lam_eq := by simp only [crackEx]; norm_num
+
+/-- … together with the periodicity hypotheses of `crack_periodic` -/
+example : Function.Periodic crackEx.bL (2 * (Real.pi : ℂ)) ∧
+    Function.Periodic crackEx.bT (2 * (Real.pi : ℂ)) :=
+  ⟨fun φ => by simp only [crackEx, Complex.sin_periodic φ],
+   fun φ => by simp only [crackEx, Complex.sin_periodic φ]⟩
+
+/-- … and the crack functions of this datum are not identically zero:
+`S_LL(π/2, π/2) = kLL a_L μ · (−(1/ξ² − 2)² · qz(2, 2)) = 7 · 3 · (−4 · 8) = −672` -/
+example (s : ℂ) : crackLL (tC s) crackEx (Real.pi / 2) (Real.pi / 2) = -672 := by
+  rw [crackLL_eq s crackEx crackEx_ok]
+  simp only [crackEx, Complex.sin_pi_div_two, Complex.cos_pi_div_two]
+  norm_num
 
 end Arim.C09
